@@ -309,6 +309,23 @@ func opSend(g *G) bool {
 		note += ", same batch twice"
 		g.bump("dup:send-same-batch-twice")
 	}
+	if g.R.Chance(1, 5) {
+		if others := g.otherHoldings(hs, h); len(others) > 0 {
+			o := others[g.R.Intn(len(others))]
+			a2, _ := g.amount(o.T)
+			extra := &base.MsgSend_SendCredits{BatchDenom: o.Batch.Denom, TradableAmount: a2}
+			if g.R.Bool() {
+				extra = &base.MsgSend_SendCredits{BatchDenom: o.Batch.Denom, RetiredAmount: a2, RetirementJurisdiction: g.jur()}
+			}
+			if g.R.Bool() {
+				credits = append(credits, extra)
+			} else {
+				credits = append([]*base.MsgSend_SendCredits{extra}, credits...)
+			}
+			note += ", two different batches in one message"
+			g.bump("multi:send-different-batches")
+		}
+	}
 	g.Do(g.App.MsgSendMulti(sender, rcpt, credits...), note)
 	return true
 }
@@ -327,7 +344,7 @@ func opRetire(g *G) bool {
 	if g.bad() && g.R.Chance(1, 4) {
 		owner, note = g.otherUser(h.Acct), note+" by a non-holder"
 	}
-	g.Do(g.App.MsgRetire(owner, g.jur(), "offset", g.dupCredits(h.Batch.Denom, a, &note)...), note)
+	g.Do(g.App.MsgRetire(owner, g.jur(), "offset", g.multiCredits(hs, h, g.dupCredits(h.Batch.Denom, a, &note), &note)...), note)
 	return true
 }
 
@@ -341,7 +358,7 @@ func opCancel(g *G) bool {
 	a, k := g.amount(h.T)
 	g.bump("amount:" + k)
 	note := "cancel (" + k + ")"
-	g.Do(g.App.MsgCancel(h.Acct, "cancel", g.dupCredits(h.Batch.Denom, a, &note)...), note)
+	g.Do(g.App.MsgCancel(h.Acct, "cancel", g.multiCredits(hs, h, g.dupCredits(h.Batch.Denom, a, &note), &note)...), note)
 	return true
 }
 
@@ -361,6 +378,37 @@ func (g *G) dupCredits(denom, amount string, note *string) []*base.Credits {
 		}
 	}
 	return []*base.Credits{chain.Credits(denom, amount), chain.Credits(denom, "0.000001")}
+}
+
+// otherHoldings returns the holdings of h's account in batches other than h's.
+func (g *G) otherHoldings(hs []holding, h holding) []holding {
+	var out []holding
+	for _, o := range hs {
+		if o.Acct == h.Acct && o.Batch.Denom != h.Batch.Denom {
+			out = append(out, o)
+		}
+	}
+	return out
+}
+
+// multiCredits adds (in a third of the cases) an entry for a different batch held by the same account,
+// before or after the given entries.
+func (g *G) multiCredits(hs []holding, h holding, credits []*base.Credits, note *string) []*base.Credits {
+	if !g.R.Chance(1, 3) {
+		return credits
+	}
+	others := g.otherHoldings(hs, h)
+	if len(others) == 0 {
+		return credits
+	}
+	o := others[g.R.Intn(len(others))]
+	a2, _ := g.amount(o.T)
+	g.bump("multi:credits-different-batches")
+	*note += ", two different batches in one message"
+	if g.R.Bool() {
+		return append(credits, chain.Credits(o.Batch.Denom, a2))
+	}
+	return append([]*base.Credits{chain.Credits(o.Batch.Denom, a2)}, credits...)
 }
 
 func chainNames(v *monitor.View) []string { return sortedDenoms(v.Chains) }
